@@ -15,14 +15,37 @@ Theorem C07_deny_closes_all :
 Proof. intros ts cs n sched b k H. exact (deny_closes_all ts cs n sched b k H). Qed.
 Print Assumptions C07_deny_closes_all.
 
-(* no racing request silently erases a cancellation: the only step that takes a booking off the deny
-   list is the first step of an explicit allow request for that booking *)
+(* no racing request silently erases a cancellation: the only steps that take a booking off the deny
+   list are the first step of an explicit allow request for that booking, and a prune tick whose clock is
+   past an expiry recorded for it *)
 Theorem C07_deny_sticks :
   forall s w s' b,
     step s w = Some s' -> memN b (deny s) = true -> memN b (deny s') = false ->
-    exists i, w = T i /\ thr s i = Some (TAllow b 0).
+    exists i, w = T i /\ (thr s i = Some (TAllow b 0) \/ exists t, thr s i = Some (TPrune t 0) /\ expired_at s t b = true).
 Proof. exact deny_sticks. Qed.
 Print Assumptions C07_deny_sticks.
+
+(* "... until an explicit allow or the expiry given in the deny request": for every schedule and any
+   threads, a booking denied with recorded expiry e stops being denied only by an explicit allow request
+   for it or by a prune tick whose clock t is past e; and the deny step records exactly the expiry the
+   request stated (the latest request wins) *)
+Theorem C07_deny_holds_until_allow_or_expiry :
+  forall ts cs n sched w s' b e,
+    step (run sched (init ts cs n)) w = Some s' ->
+    memN b (deny (run sched (init ts cs n))) = true -> In (b, e) (dexp (run sched (init ts cs n))) ->
+    memN b (deny s') = false ->
+    exists i, w = T i /\ (thr (run sched (init ts cs n)) i = Some (TAllow b 0) \/
+                          exists t, thr (run sched (init ts cs n)) i = Some (TPrune t 0) /\ (e < t)%Z).
+Proof. exact deny_holds_until_allow_or_expiry. Qed.
+Print Assumptions C07_deny_holds_until_allow_or_expiry.
+
+Theorem C07_deny_records_its_expiry :
+  forall s i b e,
+    thr s i = Some (TDeny b e 0) ->
+    exists s', tstep s i = Some s' /\ memN b (deny s') = true /\ In (b, e) (dexp s') /\
+               (forall e', In (b, e') (dexp s') -> e' = e).
+Proof. exact deny_records_its_expiry. Qed.
+Print Assumptions C07_deny_records_its_expiry.
 
 (* new session requests carrying a denied booking are refused with 400: no code, no change *)
 Theorem C07_deny_refuses_new :
@@ -44,7 +67,7 @@ Print Assumptions C07_denied_code_joins_nothing.
 Theorem C07_other_bookings_untouched :
   forall s i s' t b b',
     thr s i = Some t -> tstep s i = Some s' ->
-    match t with TSession x _ _ | TDeny x _ | TAllow x _ => x = b | _ => False end -> b' <> b ->
+    match t with TSession x _ _ | TDeny x _ _ | TAllow x _ => x = b | _ => False end -> b' <> b ->
     memN b' (deny s') = memN b' (deny s) /\ memN b' (allow s') = memN b' (allow s) /\
     codes_of s' b' = codes_of s b' /\ chans_of s' b' = chans_of s b' /\ closed s' = closed s /\ members s' = members s.
 Proof. exact other_bookings_untouched. Qed.
@@ -59,9 +82,16 @@ Print Assumptions C07_loop_closes_only_its_booking.
 (* non-vacuity: a racing schedule that ends quiescent with booking 1 denied, a connection that had
    joined and a deny that closed it *)
 Example C07_witness :
-  let s := run [T 0; T 0; T 1; T 1; T 1; T 0; L] (init [TWs 7 0 None; TDeny 1 0] [(7, 1)]%N 50) in
+  let s := run [T 0; T 0; T 1; T 1; T 1; T 0; L] (init [TWs 7 0 None; TDeny 1 900 0] [(7, 1)]%N 50) in
   quiescent s = true /\ memN 1 (deny s) = true /\ members s = [(0, 1%N)] /\ live s 0 1 = false /\ closed s = [0].
 Proof. vm_compute. repeat split. Qed.
+
+(* non-vacuity for the expiry clause: a deny until 900 survives a prune tick at clock 900 and is lifted by one at 901 *)
+Example C07_expiry_witness :
+  let s := run [T 0; T 0; T 0; L; T 1] (init [TDeny 1 900 0; TPrune 900 0; TPrune 901 0] [] 50) in
+  memN 1 (deny s) = true /\ In (1%N, 900%Z) (dexp s) /\
+  memN 1 (deny (run [T 2] s)) = false.
+Proof. vm_compute. repeat split. left; reflexivity. Qed.
 
 (* the same theorems do NOT hold of the code as it was before the two repairs (kept as evidence that the
    statements are not vacuous): F3 - the session handler's Allow erased a concurrent deny *)
